@@ -593,10 +593,12 @@ func (p *DevStatusAnsPayload) UnmarshalBinary(data []byte) error {
 		return errors.New("lorawan: 2 bytes of data are expected")
 	}
 	p.Battery = data[0]
-	if data[1] > 31 {
-		p.Margin = int8(data[1]) - 64
+	// the margin is a 6 bit signed integer, bits 7..6 are RFU
+	margin := data[1] & 0x3f
+	if margin > 31 {
+		p.Margin = int8(margin) - 64
 	} else {
-		p.Margin = int8(data[1])
+		p.Margin = int8(margin)
 	}
 	return nil
 }
@@ -713,7 +715,7 @@ func (p *RXTimingSetupReqPayload) UnmarshalBinary(data []byte) error {
 	if len(data) != 1 {
 		return errors.New("lorawan: 1 byte of data is expected")
 	}
-	p.Delay = data[0]
+	p.Delay = data[0] & 0x0f // bits 7..4 are RFU
 	return nil
 }
 
@@ -1040,7 +1042,7 @@ func (v *Version) UnmarshalBinary(data []byte) error {
 	if len(data) != 1 {
 		return errors.New("lorawan: 1 byte of data is expected")
 	}
-	v.Minor = data[0]
+	v.Minor = data[0] & 0x0f // bits 7..4 are RFU
 	return nil
 }
 
